@@ -78,7 +78,10 @@ func (r *Reader) readSecondStage(bufMeta []bufferMeta) (rb []byte, err error) {
 
 			// rb = append(rb, rbTemp...)
 			if (rbCursor + len(rbTemp)) > totalDatalen {
-				totalDatalen += totalDatalen
+				// the compression ratio is only an estimate: grow until the records fit
+				for totalDatalen < rbCursor+len(rbTemp) {
+					totalDatalen += totalDatalen + len(rbTemp)
+				}
 				rb2 := make([]byte, totalDatalen)
 				copy(rb2[:rbCursor], rb[:rbCursor])
 				rb = rb2
